@@ -26,7 +26,7 @@ P = {
  "C20": ("exploration", "reference-model monitor (Go map) over Add/Flush/reopen programs + raw-file structural invariants after every flush", "4/C20"),
 }
 TEXT = {
- "C01": ("Every generated CSV x configuration is ingested by the real code and read back through the blocks (and through `wrgl export`, also via the cached branch-file commit route with the edit in the cache entry's second; a spill file that comes back short must fail the ingest; first commit from a configured file; `diff --branch-file` between cached commits); a sort+dedupe model over the encoding/csv parse of the exact bytes decides. Held-on-observed over ~480 (quick) / ~30 000 (thorough) ingests incl. 64 KiB boundary cells, spills and 1..16-worker runs; not a proof over all CSVs.",
+ "C01": ("Every generated CSV x configuration is ingested by the real code and read back through the blocks (and through `wrgl export`, also via the cached branch-file commit route with the edit in the cache entry's second; a spill file that comes back short must fail the ingest; first commit from a configured file; `diff --branch-file` between cached commits; a three-argument commit on a branch whose configuration names another key); the stored table must carry the chosen key; a sort+dedupe model over the encoding/csv parse of the exact bytes decides. Held-on-observed over ~480 (quick) / ~30 000 (thorough) ingests incl. 64 KiB boundary cells, spills and 1..16-worker runs; not a proof over all CSVs.",
          "encoding/csv as the reference for what a file says; which duplicate survives is free; meow collision resistance"),
  "C02": ("Metamorphic: >=20 ingests of one logical table (permutations, spill counts, workers, delimiters, badger, CLI) must give one table id and single mutations must change it; plus the CLI 'file hasn't changed' path and re-keying of a branch file (subset / reorder / no key) through the commit cache, incl. a branch file behind a symbolic link. Exploration over 60/2000 base tables.",
          "unique keys; hash collision resistance assumed"),
@@ -36,35 +36,35 @@ TEXT = {
          "inputs are C03-valid tables with unique keys; common keys under differing columns are don't-cares; keyless tables with differing column lists are not diffed row by row by design and not judged"),
  "C05": ("A cell-level reference merge with explicit don't-cares is compared with Merger/RowCollector output through three paths (rows, blocks+ingest+structural monitor, real `wrgl merge`). All structural classes are judged (the key-not-first class was an open finding until its repair e14f703); for keyless tables whose columns change wrgl (since a repair) refuses the merge, which is accepted for that class only (column reorders included). Merges by the real binary on a store missing one object must fail with the branch untouched or be right.",
          "N<=3 branches; the interactive merge UI is not driven; cells where the statement gives no rule accept any outcome"),
- "C06": ("Round trip, re-encode identity and content addressing for generated commits, tables, blocks, block indices, profiles; the packfile length header exhaustively over a range plus all 2^k boundaries and samples.",
+ "C06": ("Round trip, re-encode identity and content addressing for generated commits, tables, blocks, block indices, profiles (the block index built from the encoded block equals the one built from rows; a profile / table index saved again for the same table replaces the earlier one; a save over damaged bytes repairs them); the packfile length header exhaustively over a range plus all 2^k boundaries and samples.",
          "instants outside [1970,2286) excluded; profiles are those the profiler produces"),
  "C07": ("Source/destination store snapshots and the recorded object stream of real ObjectSender -> PackfileReader -> ObjectReceiver transfers (incl. re-ordered hostile streams and packfiles cut inside an object) are compared: byte identity, ordering, rebuilt indices, nothing half-visible after a refusal.",
          "in-memory transport; sender's precondition (tables of common commits complete at the destination) is respected"),
  "C08": ("ClosedSetsFinder outputs over exhaustive small DAG shapes, random DAGs and growing merge families are judged against harness-computed ancestor sets, with a counted-store-reads bound standing in for 'polynomial'; duplicate wants and a further round after a refusal included.",
          "work bound 8(n+r)^2+64 on the stated families; repeated entries are not judged in themselves"),
- "C09": ("Real `wrgl fetch/push/pull` (and UploadPackSession directly) run in-process against a reference HTTP server built from wrgl's own finder/sender/receiver; object and ref snapshots of both sides plus the server's request log decide completeness, identity and idempotence; a quarter of the exchanges are retries after an attempt interrupted by an injected store failure, single-branch fetches face remotes with off-branch tags, full fetches follow earlier shallow ones (incl. refs created on commits left shallow, and `fetch tables`, tags no refspec names, a depth fetch after a depth fetch), pushes come from shallow clones or from repositories tracking another remote, two refspecs may share a destination, and `fetch --all` may address two remotes on one host.",
+ "C09": ("Real `wrgl fetch/push/pull` (and UploadPackSession directly) run in-process against a reference HTTP server built from wrgl's own finder/sender/receiver; object and ref snapshots of both sides plus the server's request log decide completeness, identity and idempotence; a quarter of the exchanges are retries after an attempt interrupted by an injected store failure, single-branch fetches face remotes with off-branch tags, full fetches follow earlier shallow ones (incl. refs created on commits left shallow, and `fetch tables`, tags no refspec names, a depth fetch after a depth fetch), pushes come from shallow clones or from repositories tracking another remote, two refspecs may share a destination, `fetch --all` may address two remotes on one host, the server may speak HTTP/2 over TLS, and it may cut the k-th packfile of an exchange mid-body (HTTP/2 stream reset, which fetch/pull answer by restarting the exchange themselves; HTTP/1.1 dropped connection, after which the command is run again).",
          "the reference server (harness/refserver) is trusted; no authentication, retries or real wrgld"),
  "C10": ("Ref values and full reflogs before/after real fetch (also --all from configured refspecs)/push (tags from several source spellings)/pull/merge commands, judged against the harness graph model: forward-only moves without force (also for merge targets spelled below the branch and for shallow merged commits), tags never clobbered (also hierarchical tag names), rejections reported while other refs still update, exact fast-forward (the mode in force coming from a flag or from merge.fastForward), a pull never resets the local branch (also with a '+' refspec and a branch name that does not resolve), faithful reflog entries.",
          "client-side gating only; the reference server applies what it is sent"),
- "C11": ("All labelled commit DAGs with <=2 parents up to n=5 (quick) / n=6 (thorough) x four timestamp modes: IsAncestorOf for all pairs, history walks, SeekCommonAncestor for all pairs and triples, against harness ancestor sets; plus interrupted and resumed walks on CommitsQueue (RemoveAncestors, PopUntil) against a model. Exhaustive within the bound, sampled beyond.",
+ "C11": ("All labelled commit DAGs with <=2 parents up to n=5 (quick) / n=6 (thorough) x four timestamp modes: IsAncestorOf for all pairs, history walks, SeekCommonAncestor for all pairs and triples, against harness ancestor sets; plus interrupted and resumed walks on CommitsQueue (RemoveAncestors, PopUntil) against a model; random DAGs of 60..150 commits with merge bases of 5..130 heads. Exhaustive within the bound, sampled beyond.",
          "which common ancestor is chosen is free unless an input is one"),
- "C12": ("Key sets and bytes before/after prune (package level and real `wrgl prune`/`gc`) against graph-model reachability, with full read-back of every reachable commit through the structural monitor and a second prune; repositories hold tables sharing blocks under two keys and refs of an open transaction.",
+ "C12": ("Key sets and bytes before/after prune (package level and real `wrgl prune`/`gc`) against graph-model reachability, with full read-back of every reachable commit through the structural monitor and a second prune; repositories hold tables sharing blocks under two keys and refs of an open transaction; the worker runs west of UTC and half of the gc runs have a two-hour transactionTTL.",
          "objects that never belonged to a commit are don't-cares"),
  "C13": ("Fault enumeration: for every scenario EVERY persistent write position is visited, once killing the real `wrgl` process before the write (SIGKILL via verifhook) and once failing the write; the reopened repository must satisfy the invariant monitor and a re-run must reach the uninterrupted outcome. Scenarios: commit (new, existing, shared-table, reverted data), merge (ff, no-ff, real), prune, transaction commit, fetch and pull against the in-worker reference server. Also in-process over recording stores for ingest, receive, prune.",
          "a single badger update / SQL transaction is atomic and durable against process death; crashes inside a write and power loss are not modelled"),
  "C14": ("Fault enumeration over every store operation (reads and writes) of transaction Commit and Discard, as error and as process death, x every branch mix up to 3, each 4 times (map order), plus the real `wrgl transaction commit` killed/failed at every write, plus unrelated commits landing on already-moved branches before the re-run, plus a foreign read cursor on the SQLite file during each branch move, plus a foreign write transaction during each read of the ref store, plus discard after a half-applied commit, reapply after later work, hierarchical branch names, plus the double-commit/discard sequences; the atomicity oracle inspects heads, reflogs (txid entries), status and staged refs and re-runs.",
          "concurrent committers of one transaction are not modelled"),
- "C15": ("Every return value of the ref store (SQL memory/file, file store) is compared step by step with a map + per-name log model over an alphabet built to expose wildcard, case and prefix confusion; concurrent clients on one SQLite file are checked for linearizability per name with porcupine (failed operations left open with unknown effect) and for reflog-chain integrity.",
+ "C15": ("Every return value of the ref store (SQL memory/file, file store) is compared step by step with a map + per-name log model over an alphabet built to expose wildcard, case and prefix confusion (also programs that grow logs of 50..200 entries on two names); concurrent clients on one SQLite file are checked for linearizability per name with porcupine (failed operations left open with unknown effect) and for reflog-chain integrity.",
          "rename/copy onto existing names must fail without effect; file store restricted to what it implements"),
  "C16": ("All pipelines run under the Go race detector with synchronisation-free yields at the shared-state touch points, varying workers and GOMAXPROCS; every race report is attributed to the case and classified by its accessing frames; results must equal the single-worker run; store errors injected into ingest, diff and merge - and into the real binary's commit and merge with default progress bars - must surface and return, hangs judged by goroutine state; progress trackers are started, consumed and stopped the way the commands do it; store errors also hit ingests that are merging spill files.",
          "schedules are sampled, not enumerated; the detector only sees synchronisation it intercepts"),
- "C17": ("Structured mutation of valid encodings (every truncation, bit flips, every 1/2/4-byte window x 11 boundary values, every 1/2-byte window x small indices 2..17, two-field forgeries, splices, mutually inconsistent well-formed objects) for 18 decoder entry points and ObjectReceiver.Receive; per input: returns, no panic/death (6 GiB address-space limit, canary file), allocation and Read-call bounds, a re-timed work bound, and nothing rejected left visible. Three s2-related signatures are open known findings.",
+ "C17": ("Structured mutation of valid encodings (every truncation, bit flips, every 1/2/4-byte window x 11 boundary values, every 1/2-byte window x small indices 2..17, every byte x 29 ASCII characters text parsers trip over, two-field forgeries, splices, mutually inconsistent well-formed objects) for 18 decoder entry points and ObjectReceiver.Receive; per input: returns, no panic/death (6 GiB address-space limit, canary file), allocation and Read-call bounds, a re-timed work bound, and nothing rejected left visible. Replies of a remote: a valid exchange of wrgl's client with the reference server is recorded and replayed with one reply replaced by a mutant (structural JSON mutants incl. null / short / long sums, truncations, bit flips, wrong content type or status, another reply of the exchange) against UploadPackSession, Client.GetRefs and the real `wrgl fetch` / `wrgl push`: no panic, no requests after the script ended, repository invariant afterwards. Three s2-related signatures are open known findings.",
          "inputs sampled around valid encodings; Decode functions without error return are not entry points"),
- "C18": ("Differential: each valid stream is decoded whole and under 16+ chunkers incl. one-byte, data+EOF, (0,nil) reads, seeded random sizes and cuts inside every header, incl. fields and payloads far longer than any chunk; values and terminal condition must agree; wrgl's HTTP client reads upload-pack / objects / refs answers written by an httptest server in every write pattern. A one-byte-per-flush variant also runs inside C09.",
+ "C18": ("Differential: each valid stream is decoded whole and under 16+ chunkers incl. one-byte, data+EOF, (0,nil) reads, seeded random sizes and cuts inside every header, incl. fields and payloads far longer than any chunk; values and terminal condition must agree; wrgl's HTTP client reads upload-pack / objects / refs answers written by an httptest server in every write pattern, plainly, under a gzip content encoding and over HTTP/2 on TLS. A one-byte-per-flush variant also runs inside C09.",
          "readers returning (0,nil) forever are excluded"),
- "C19": ("Both outputs of two identically fed sorters are compared with sort+dedupe of the input minus removed columns, with each other row for row, and the temp dir is listed after Close, over tiny-alphabet multisets x key shapes x forced spill counts x removed-column sets, fed through AddRow or through SortFile.",
+ "C19": ("Both outputs of two identically fed sorters are compared with sort+dedupe of the input minus removed columns, with each other row for row, and the temp dir is listed after Close, over tiny-alphabet multisets x key shapes x forced spill counts x removed-column sets, fed through AddRow or through SortFile; rows of different widths (as in a merge whose branches only appended columns) and sorters that were used for another, wider, spilled table before and Reset (as the doctor does).",
          "removed columns are never key columns; keyless tables are not combined with removed columns"),
- "C20": ("Every flush/reopen point of ~1000 (quick) / 20000 (thorough) generated programs is compared against a map for the whole hash universe, and the file's order and fan-out are re-derived from raw bytes; hashes are passed as separate slices or carved from one caller-owned buffer. Held-on-observed, not a proof; the right level because the state space (file contents x pending batch) is unbounded but small universes force the interesting collisions.",
+ "C20": ("Every flush/reopen point of ~1000 (quick) / 20000 (thorough) generated programs is compared against a map for the whole hash universe, and the file's order and fan-out are re-derived from raw bytes; hashes are passed as separate slices or carved from one caller-owned buffer; bulk programs put up to 1 700 hashes of one first byte into a single flush under batch sizes up to 4096. Held-on-observed, not a proof; the right level because the state space (file contents x pending batch) is unbounded but small universes force the interesting collisions.",
          "callers never modify a slice after Add; os.File and misc.Buffer semantics"),
 }
 def text(pid):
